@@ -383,6 +383,10 @@ func TryReplay(e *Engine, r Result, dir, name, scratch string) (string, bool) {
 	}
 	var file string
 	reproduced := false
+	var blocked []string // earlier candidate inputs that did not reproduce: excluded from the next model
+	overall := time.Now().Add(100 * time.Second)
+	for attempt := 0; attempt < 4 && !reproduced && time.Now().Before(overall); attempt++ {
+	var lastFixed []string
 	func() {
 		defer func() {
 			if rec := recover(); rec != nil {
@@ -395,6 +399,8 @@ func TryReplay(e *Engine, r Result, dir, name, scratch string) (string, bool) {
 		scriptMu.Lock()
 		defer scriptMu.Unlock()
 		cz := &concretizer{u: u, script: string(base), dir: scratch, budget: 400, deadline: time.Now().Add(45 * time.Second)}
+		cz.fixed = append(cz.fixed, blocked...)
+		defer func() { lastFixed = cz.fixed[len(blocked):] }()
 		if r.O.Kind != "safety" {
 			// only a safety obligation can be confirmed by running the candidate input (a panic); for the other kinds
 			// the candidate is informative only: a short budget
@@ -426,7 +432,7 @@ func TryReplay(e *Engine, r Result, dir, name, scratch string) (string, bool) {
 		pkgDir, _ := filepath.Rel(e.RepoDir, filepath.Dir(e.Fset.Position(fn.Pos()).Filename))
 		testName := "TestGovcReplay_" + nonIdent.ReplaceAllString(fn.Name(), "_")
 		var sb bytes.Buffer
-		fmt.Fprintf(&sb, "// replay-package: %s\n// replay-test: %s\n", pkgDir, testName)
+		fmt.Fprintf(&sb, "// replay-package: %s\n// replay-test: %s\n// replay-specgen: %s\n", pkgDir, testName, GenFileName)
 		fmt.Fprintf(&sb, "// Replay of a refuted obligation, derived from the solver's model.\n// function:   %s\n// obligation: %s :: %s\n// source:     %s\n\n", r.O.Fn, r.O.Kind, r.O.Name, r.O.Pos)
 		fmt.Fprintf(&sb, "package %s\n\nimport (\n\t\"testing\"\n", self.Name())
 		// arguments first (to know imports)
@@ -514,7 +520,8 @@ func TryReplay(e *Engine, r Result, dir, name, scratch string) (string, bool) {
 			// the generated contract file (spec functions) with evaluating helpers joins the package for this run only
 			gp := filepath.Join(e.RepoDir, pkgDir, GenFileName)
 			if gen, ok := e.GenText[gp]; ok {
-				gf := filepath.Join(scratch, "gen_"+name[:min(40, len(name))]+".go")
+				// kept beside the replay so that /verif/replay.sh can run it again (named in the replay's header)
+				gf := strings.TrimSuffix(file, "_test.go") + "_specgen.go.txt"
 				os.WriteFile(gf, []byte(ReplayText(gen)), 0o644)
 				ovText += fmt.Sprintf(", %q: %q", gp, gf)
 			}
@@ -539,6 +546,21 @@ func TryReplay(e *Engine, r Result, dir, name, scratch string) (string, bool) {
 		fmt.Fprintf(f, "\n/* result of running this replay against the real code (reproduced=%v):\n%s\n*/\n", reproduced, strings.ReplaceAll(res, "*/", "* /"))
 		f.Close()
 	}()
+	if file == "" || len(lastFixed) == 0 {
+		break
+	}
+	// exclude this candidate (the conjunction of the values read from the model) and ask for another one
+	var eqs []string
+	for _, f := range lastFixed {
+		if strings.HasPrefix(f, "(assert (= ") {
+			eqs = append(eqs, strings.TrimSuffix(strings.TrimPrefix(f, "(assert "), ")"))
+		}
+	}
+	if len(eqs) == 0 {
+		break
+	}
+	blocked = append(blocked, "(assert (not (and "+strings.Join(eqs, " ")+")))")
+	}
 	if file == "" {
 		return "", false
 	}
